@@ -183,7 +183,12 @@ fn pattern() -> BoxedStrategy<String> {
         3 => "[ a-zA-Z0-9_]{0,6}",
         1 => gv::ustring(4),
     ];
-    prop::collection::vec(piece, 0..8).prop_map(|v| v.concat()).boxed()
+    // mostly short patterns; one in twenty has 40-200 pieces (dozens to hundreds of macros in one pattern)
+    prop_oneof![
+        19 => prop::collection::vec(piece.clone(), 0..8).prop_map(|v| v.concat()),
+        1 => prop::collection::vec(piece, 40..200).prop_map(|v| v.concat()),
+    ]
+    .boxed()
 }
 
 fn tag_value() -> BoxedStrategy<RVal> {
